@@ -118,3 +118,31 @@ Proof.
   exists (url_back u). destruct (reparse_printed s u lj fo' W Ha) as [H1 H2].
   split; [exact H1|]. split; [exact H2|exact (url_back_same s u W)].
 Qed.
+
+(** the printed text lies in the domain on which [parse_raw] models url.Parse:
+    one leading slash, not two *)
+Lemma pesc_char_head c : exists d r, pesc_char c = String d r /\ Ascii.eqb d "/" = false.
+Proof. destruct c as [[] [] [] [] [] [] [] []]; cbn; eexists; eexists; split; reflexivity. Qed.
+
+Lemma in_domain_shape d r : Ascii.eqb d "/" = false -> raw_in_domain (String "/" (String d r)) = true.
+Proof.
+  intros Hd. unfold raw_in_domain, has_prefix. cbn [String.prefix].
+  destruct (ascii_dec "/" "/") as [_|N]; [|contradiction].
+  destruct (ascii_dec "/" d) as [E0|_]; [subst d; discriminate Hd|].
+  destruct r; reflexivity.
+Qed.
+
+Lemma join_head sep a l : exists t, join sep (a :: l) = (a ++ t)%string.
+Proof. destruct l as [|b l]; [exists ""; cbn; symmetry; apply sapp_nil_r|exists (sep ++ join sep (b :: l))%string; reflexivity]. Qed.
+
+Theorem url_string_in_domain s u lj : url_wf s u -> raw_in_domain (url_string u lj) = true.
+Proof.
+  intros W. destruct (wf_frags s u W) as [x [l [Hfr Hfo]]].
+  rewrite url_string_eq, (url_path_text_eq u x l Hfr).
+  inversion Hfo as [|? ? [Hx _] _]; subst.
+  destruct x as [|c x']; [contradiction|].
+  change (map path_escape (String c x' :: l)) with (path_escape (String c x') :: map path_escape l).
+  destruct (join_head "/" (path_escape (String c x')) (map path_escape l)) as [t ->].
+  rewrite path_escape_cons. destruct (pesc_char_head c) as [d [r [E Hd]]]. rewrite E.
+  cbn [append]. apply in_domain_shape. exact Hd.
+Qed.
